@@ -339,8 +339,8 @@ def main(tier, replay=None):
     if not cases:
         for f, n, d in DIRECTED:
             cases.append((f, n, d, "directed"))
-        per = 260 if tier == "quick" else 50000
-        N, D = (7, 3) if tier == "quick" else (48, 13)
+        per = 260 if tier == "quick" else 30000
+        N, D = (7, 3) if tier == "quick" else (130, 20)
         for f in sorted(F):
             kind, nt, dt, ret = F[f]
             # the limits of the divisor's (dividend's) word type against dividends (divisors) around its multiples, swept completely
@@ -355,6 +355,14 @@ def main(tier, replay=None):
                             n, d = (sg * o, w) if dt != "Z" else (w, sg * o)
                             if d != 0 and clampfit(n, nt) and clampfit(d, dt) and (kind != "exact" or n % d == 0):
                                 cases.append((f, n, d, "word-limit grid (exhaustive)"))
+            # thorough: the 8- and 16-bit divisor types swept completely
+            if tier != "quick" and dt in ("i8", "u8", "i16", "u16"):
+                lo, hi = RANGES[dt]
+                ns = range(-300, 301) if dt in ("i8", "u8") else (40000, -40000, 65535, -65536, 10**30 + 7, -(10**30 + 7))
+                for d in range(lo, hi + 1):
+                    if d != 0:
+                        for n in ns:
+                            cases.append((f, n, d, "complete 8/16-bit divisor type (exhaustive)"))
             # multi-limb divisors against dividends around 0, |d| and 2|d| (the "already reduced" / n = 0 / n = +-d shortcuts), swept completely
             if dt == "Z":
                 for a in (2**64 + 1, 2**64, 2**127 - 1, 10**30, 2**63, 3):
@@ -444,7 +452,7 @@ def main(tier, replay=None):
                     chk.broke("extracted model differs from the specification oracle on %s n=%d d=%d: model=%s spec=%s" % (f, n, d, mout[i], exps))
     if len(chk.broken) > 20:
         chk.broken = chk.broken[:20] + [{"what": "... %d more" % (len(chk.broken) - 20), "detail": ""}]
-    chk.cov["rule"] = ("every call form x { the box n in [-N,N], d in [-D,D]\\{0} swept completely (quick N=7, D=3; thorough N=48, D=13) } + (n, d) drawn per class: n = k d, n in {d,-d,0}, |d| = 1, multi-limb multiples, |d| > |n|, "
+    chk.cov["rule"] = ("every call form x { the box n in [-N,N], d in [-D,D]\\{0} swept completely (quick N=7, D=3; thorough N=130, D=20; thorough also every divisor of the 8/16-bit types) } + (n, d) drawn per class: n = k d, n in {d,-d,0}, |d| = 1, multi-limb multiples, |d| > |n|, "
                        "k d +- e, k d +- (|d|-1), k d +- |d|/2, word limits of the operand types, random structured limbs; both signs; "
                        "non-trivial = n != 0, |d| != 1 and d does not divide n (for divexact: |d| != 1, n != 0); distinct = (form, n, d)")
     chk.cov["traces_validated_against_impl"] = ncorr
